@@ -311,6 +311,61 @@ for every statement, the expression forms in `_Fun.expr8` / `ntype8`):
   (a, b: variables not assigned again; any other use of x aborts).  ASSUMPTION of the driver that sets the flag: a proxy is a
   (table, prefix) pair without state of its own, and evaluating `table[a][b]` again on the same keys has no further effect on the
   table and yields an equal proxy.
+
+Containers are VALUES.  Lists, sets, dictionaries and objects are translated as immutable Coq values and every update as a
+rebinding of the variable (state passing); two Python names for one mutable object are therefore invisible to the translation.
+The subset is chosen so that no alias can arise (a container variable is only ever bound to a newly built container, a parameter is
+never updated unless declared, ..), and what would update a possibly shared object in place ABORTS: in particular `x op= e`
+(`|= &= += -= ..`) on a variable is translated only for ints, booleans and declared number types -- on a set, list, dictionary or
+object it is `x.__ior__(e)` etc., an update of the object under all its names (`x = x | e`, which builds a new set, is
+translated).  The module itself must consist of imports, defs, classes, the docstring, simple constant assignments (typing
+aliases, `TypeVar`) and `if TYPE_CHECKING:` imports, and may not bind a built-in name the translation interprets (`len`, `set`,
+`sorted`, `min`, `max`, `sum`, `zip`, `range`, `list`, `tuple`, `dict`, `any`, `all`, `enumerate`, `reversed`, `iter`, `next`,
+`isinstance`): anything else (e.g. `mod.Class.method = f`) aborts (`Unit.check_module`, run when the unit is created).
+
+Ninth extension (used by `translator/dsu_gen.py` for `DisjointSet.binary`; everything is switched on by `Unit.use_ninth`, which needs
+an `extended` unit with `use_containers`, `use_tables` and `use_seventh`; a unit that does not call it translates exactly as before;
+the statement forms are in `_Fun.block9` / `_Fun.prepare9`, tried first, the expression forms in `_Fun.expr9` / `ntype9`):
+
+* `Unit.local_function(cls, method, spec)`: a `def` at the top level of a method body, translated before the method as a function of
+  the unit (checked: defined once, never rebound, mentioned nowhere else, undecorated, and mentioning no variable of the method, so
+  that it is closed); calling itself it is a `Fixpoint` on the declared fuel; the method may use it only as `return f(..)` at its top
+  level, keyword arguments being exactly the remaining parameters in order;
+* objects as arguments of such a function: the callee cannot update a parameter (a method call on a parameter aborts) and
+  `x = deepcopy(y)` (`from copy import deepcopy`; y an object of a translated class whose attributes hold ints / lists of ints /
+  booleans) is the value of y; an object handed on must be a local variable that is not the receiver of any call textually after the
+  hand-over in a function without loops -- so an object the callee returns inside its result has the value it had at the call;
+  `self` handed over by the method (only in the returned call) is the object as it is when the callee starts;
+* `FunSpec.fresh` on a local function with a list result (checked: every returned value is a list display, a concatenation, a slice
+  or such a call): its result may be bound to a list variable; `xs + ys` on two lists of one type (`++`), `xs[k:]` with a literal
+  k >= 0 as a new list (`skipn`), `[x]` with x an object;
+* `if x is not None: A else: B` on a variable of an option type: a `match` (x is the value inside A); `if x is None`, `x is None or
+  c`, `x is not None and c` are rewritten into it (A or B is translated twice; c is evaluated only where Python evaluates it);
+* `list(set(self.m(i) for i in range(e)))` as an argument of the returned call: the loop it abbreviates (the generator is consumed
+  at once by `set`; `self.m` may update the object: the state is threaded) collecting the items in insertion order, then
+  `Unit.use_ninth(list_set_order={<list type>: <Section variable>})` applied to that list (with its duplicates): the distinct items in
+  the order Python iterates the set -- a function of the inserted sequence that the theorems quantify over.
+
+Ninth extension, second part (used by `translator/build_gen.py` for `tree_from_triples`; same switch):
+
+* `Unit.buildtree9(name, module, label)`: ete3's `Tree` as the type of trees the code BUILDS (an opaque type whose `Inductive`
+  -- a name, `None` when none is given, and the list of children -- the unit emits): `Tree()` / `Tree(name=e)` is a new node without
+  children, `x.add_child(y)` (x a local variable; y a new node or a variable that is never itself given a child in the function)
+  appends y to the children of x -- a rebinding of x, sound because no tree has two names: a tree variable is only ever bound to
+  a new node, `t.copy()` (the value t), None or the result of a function of the unit, and x may not have been handed on
+  (appended, put in a display, passed, returned) earlier in the same life of the variable (`no_escape9`: since its last binding
+  to a new node, also around a loop); `if x:` / `if not x:` on an `option <tree>` variable is `x is not None` / `x is None` (ASSUMPTION:
+  `TreeNode.__bool__` is always true); `if x is None: <return>` leaves x narrowed afterwards (the sixth extension's form);
+* `Unit.tuple9(name, components)`: a Python tuple with exactly these (immutable) components, the Coq product; `for a, b, _ in xs`
+  over a list of them (a fresh loop variable, unpacked first); `all(v in ys for v in t)`, t such a tuple whose components have the
+  item type of the list ys: the conjunction, left to right, of `existsb (fun y' => eqb y' c) ys`;
+* `d = {k: i for i, k in enumerate(xs)}` into a local dictionary keyed by elements (`Unit.elemdict(.., "N")`): `enum_dict9` (one
+  store per item, in order: a key that occurs again keeps its place and takes the later position);
+  `ys = [xs[i] for i in g]` (g a `list N`): `list_gets9`, IndexError at the first position out of range;
+* `len(x)`, x a local object whose class translates `__len__`: the call of that method (the object is bound again);
+  `for g in x.m()`, m a translated method that is not `pure`: the list is bound first (`x` may not occur in the loop body);
+* objects of a class imported from another generated file (`Unit.import_unit`) as locals of a module-level function recursive
+  on fuel (`FunSpec.rec_fuel`), whose loop containing the recursive call is a local `fix`.
 """
 from __future__ import annotations
 
@@ -399,7 +454,37 @@ HELPERS["adict_mem"] = """\
 (* k in d *)
 Definition adict_mem {K V : Type} (keqb : K -> K -> bool) (d : list (K * V)) (k : K) : bool :=
   match adict_get keqb d k with Some _ => true | None => false end."""
-HELPER_DEPS = {"adict_mem": ["adict_get"], "nset": ["list_set"], "zget": ["zpos"], "zset": ["zpos", "list_set"], "dict_mem": ["dict_get"]}
+HELPERS["enum_dict9"] = """\
+(* {k: i for i, k in enumerate(xs)} continued from position i on the dictionary d: one store per item, in order (a key that
+   occurs again keeps its place and takes the later position) *)
+Fixpoint enum_dict9 {K : Type} (keqb : K -> K -> bool) (d : list (K * N)) (i : N) (xs : list K) {struct xs} : list (K * N) :=
+  match xs with
+  | nil => d
+  | cons x xs' => enum_dict9 keqb (adict_set keqb d x i) (N.succ i) xs'
+  end."""
+HELPERS["list_gets9"] = """\
+(* [xs[i] for i in is]: None = IndexError (at the first position out of range) *)
+Fixpoint list_gets9 {X : Type} (xs : list X) (is : list N) {struct is} : option (list X) :=
+  match is with
+  | nil => Some nil
+  | cons i is' =>
+    match nth_error xs (N.to_nat i) with
+    | None => None
+    | Some v => match list_gets9 xs is' with None => None | Some vs => Some (cons v vs) end
+    end
+  end."""
+HELPERS["list_gets_all9"] = """\
+(* [[xs[i] for i in g] for g in gs] *)
+Fixpoint list_gets_all9 {X : Type} (xs : list X) (gs : list (list N)) {struct gs} : option (list (list X)) :=
+  match gs with
+  | nil => Some nil
+  | cons g gs' =>
+    match list_gets9 xs g with
+    | None => None
+    | Some l => match list_gets_all9 xs gs' with None => None | Some ls => Some (cons l ls) end
+    end
+  end."""
+HELPER_DEPS = {"list_gets_all9": ["list_gets9"], "enum_dict9": ["adict_set"], "adict_mem": ["adict_get"], "nset": ["list_set"], "zget": ["zpos"], "zset": ["zpos", "list_set"], "dict_mem": ["dict_get"]}
 SET_DEFS2 = """\
 (* set(xs): the elements of xs, each once, in order of first occurrence; a <= b: every element of a is in b *)
 Definition set_of_list (l : list A) : list A := fold_left (fun s x => set_add x s) l nil.
@@ -781,6 +866,14 @@ class _Fun:
                              and not (self.unit.seventh and (self.spec.types[n.func.value.id], n.func.attr)
                                       in self.unit.noop_methods | self.unit.singleton_methods)):
                     out.add(n.func.value.id)     # s.add(e) on a set / a method call on an object
+                elif self.unit is not None and self.unit.ninth and isinstance(n, ast.Call) and isinstance(n.func, ast.Attribute) \
+                        and isinstance(n.func.value, ast.Name) and n.func.attr == "add_child" \
+                        and self.spec.types.get(n.func.value.id) in self.unit.buildtrees9:
+                    out.add(n.func.value.id)     # (ninth extension) x.add_child(e) on a tree under construction
+                elif self.unit is not None and self.unit.ninth and isinstance(n, ast.Call) and isinstance(n.func, ast.Name) \
+                        and n.func.id == "len" and len(n.args) == 1 and isinstance(n.args[0], ast.Name) \
+                        and self.kind(self.spec.types.get(n.args[0].id, ""))[0] == "class":
+                    out.add(n.args[0].id)        # (ninth extension) len(x): the method __len__ of the object
                 elif self.containers() and isinstance(n, ast.Call) and isinstance(n.func, ast.Attribute) \
                         and isinstance(n.func.value, ast.Name) and n.func.value.id in self.spec.types \
                         and n.func.attr in ("remove", "discard", "popleft", "reverse"):
@@ -890,6 +983,8 @@ class _Fun:
             return True
         if self.tables() and self.product_call(e):
             return True
+        if self.unit is not None and self.unit.ninth and self.fresh9(e):
+            return True
         if self.fresh_call(e):
             return True
         if self.unit is not None and self.unit.seventh and isinstance(e, ast.Call) and isinstance(e.func, ast.Name) \
@@ -934,6 +1029,10 @@ class _Fun:
     def ntype(self, e, env) -> str:
         """Natural type of an expression: a declared type, lit (int literal: adapts), none (the
         constant None: any option type) or newlist (a list display: any list type)."""
+        if self.unit is not None and self.unit.ninth:
+            r9 = self.ntype9(e, env)
+            if r9 is not None:
+                return r9
         if self.unit is not None and self.unit.eighth:
             r8 = self.ntype8(e, env)
             if r8 is not None:
@@ -1178,6 +1277,8 @@ class _Fun:
     def narrowing(self, test, env):
         """(x, rest of the test or None) when `test` is `x` or `x and ..`, x a variable holding an optional
         element (not narrowed yet) and the unit declares elements truthy; else None."""
+        if self.unit is not None and self.unit.ninth and self.none_test9(test, env) == "isnot":
+            return test.left.id, None            # (ninth extension) `if x is not None:` on an optional variable
         if self.unit is None or not self.unit.truthy_elem:
             return None
         first, cond = test, None
@@ -1302,6 +1403,10 @@ class _Fun:
             return f"({self.expr(e.elts[0], wa, env, hoist)}, {self.expr(e.elts[1], wb, env, hoist)})"
         if self.tables():
             want = self.canon(want)
+            if self.unit.ninth:
+                r = self.expr9(e, want, env, hoist)
+                if r is not None:
+                    return r
             if self.unit.eighth:
                 r = self.expr8(e, want, env, hoist)
                 if r is not None:
@@ -3527,6 +3632,677 @@ class _Fun:
                 return lines_open + self.block([s2] + rest, env + list(names.values()), ctx) + ["end"] * (2 * len(reads))
         return None
 
+    # ---------------------------------------------------------------- ninth extension
+    def fresh_name9(self, stem: str, t: str) -> str:
+        self.n9 = getattr(self, "n9", 0) + 1
+        v = f"{stem}9_{self.n9}"
+        if v in self.spec.types or v in _names([self.fn]) or (self.unit is not None and v in self.unit.taken):
+            self.abort(self.fn, f"the name {v!r} is in use")
+        self.spec.types[v] = t
+        return v
+
+    def rewrite9(self):
+        """Rewritings done once, before the body is translated (each replaces a statement by the statements it abbreviates):
+        `for a, b, _ in xs` (xs a list of declared fixed-length tuples) binds a fresh variable and unpacks it first;
+        `for g in x.m()` (x a local object, m a translated method that is not declared `pure`) first binds the list the call
+        returns to a fresh variable (nothing in the loop may call a method of x: the list could be one x keeps);
+        `if x:` / `if not x:` on an optional tree under construction (ete3: `TreeNode.__bool__` is always true) is
+        `if x is not None:` / `if x is None:`."""
+        types = self.spec.types
+        loc = ast.copy_location
+
+        def rewrite(stmts):
+            out = []
+            for s in stmts:
+                for fld in ("body", "orelse"):
+                    if isinstance(s, (ast.If, ast.For, ast.While)) and getattr(s, fld, None):
+                        setattr(s, fld, rewrite(getattr(s, fld)))
+                if isinstance(s, ast.If):
+                    t, neg = s.test, False
+                    if isinstance(t, ast.UnaryOp) and isinstance(t.op, ast.Not):
+                        t, neg = t.operand, True
+                    if isinstance(t, ast.Name) and is_option(types.get(t.id, "")) and arg_of(types[t.id]) in self.unit.buildtrees9:
+                        s.test = loc(ast.Compare(left=t, ops=[ast.Is() if neg else ast.IsNot()],
+                                                 comparators=[loc(ast.Constant(value=None), t)]), s.test)
+                if isinstance(s, ast.For) and isinstance(s.target, ast.Tuple) and isinstance(s.iter, ast.Name) \
+                        and is_list(types.get(s.iter.id, "")) and arg_of(types[s.iter.id]) in self.unit.tuples9:
+                    v = self.fresh_name9("item", arg_of(types[s.iter.id]))
+                    unpack = loc(ast.Assign(targets=[s.target], value=loc(ast.Name(id=v, ctx=ast.Load()), s)), s)
+                    unpack.unpack9 = True
+                    s.target = loc(ast.Name(id=v, ctx=ast.Store()), s)
+                    s.body = [unpack] + s.body
+                if isinstance(s, ast.For) and isinstance(s.iter, ast.Call) and isinstance(s.iter.func, ast.Name) \
+                        and s.iter.func.id == "product" and len(s.iter.args) == 2 and not s.iter.keywords \
+                        and all(self.local_call9(a) == self.fn.name and self.cls is None for a in s.iter.args):
+                    # for a, b in product(f(..), f(..)), f the local function itself: the two lists are computed first, in order
+                    for j, a in enumerate(s.iter.args):
+                        v = self.fresh_name9("prod", self.spec.ret)
+                        out.append(loc(ast.Assign(targets=[loc(ast.Name(id=v, ctx=ast.Store()), s)], value=a), s))
+                        s.iter.args[j] = loc(ast.Name(id=v, ctx=ast.Load()), s)
+                if isinstance(s, ast.For) and isinstance(s.iter, ast.Call) and isinstance(s.iter.func, ast.Attribute) \
+                        and isinstance(s.iter.func.value, ast.Name) and s.iter.func.value.id != "self" \
+                        and self.kind(types.get(s.iter.func.value.id, ""))[0] == "class":
+                    x = s.iter.func.value.id
+                    m = next((m for m in self.unit.done_methods.get(self.kind(types[x])[1], []) if m.name == s.iter.func.attr), None)
+                    if m is not None and not m.pure and is_list(m.ret):
+                        for n in ast.walk(ast.Module(body=s.body, type_ignores=[])):
+                            if isinstance(n, ast.Name) and n.id == x:
+                                self.abort(n, f"{x!r} is used inside a loop over the list one of its methods returned")
+                        v = self.fresh_name9("seq", m.ret)
+                        bind = loc(ast.Assign(targets=[loc(ast.Name(id=v, ctx=ast.Store()), s)], value=s.iter), s)
+                        bind.mcall9 = True
+                        s.iter = loc(ast.Name(id=v, ctx=ast.Load()), s)
+                        out.append(bind)
+                        if isinstance(s.target, ast.Name) and self.kind(types.get(s.target.id, ""))[0] == "class" \
+                                and s.target.id in self.assigned(s.body):
+                            # the items are objects the body updates: nothing else names the list (it is the fresh variable), so
+                            # the updates are seen by nobody but the body -- the loop variable is a local of the body
+                            it9 = self.fresh_name9("obj", types[s.target.id])
+                            own = loc(ast.Assign(targets=[loc(ast.Name(id=s.target.id, ctx=ast.Store()), s)],
+                                                 value=loc(ast.Name(id=it9, ctx=ast.Load()), s)), s)
+                            own.objitem9 = True
+                            s.target = loc(ast.Name(id=it9, ctx=ast.Store()), s)
+                            s.body = [own] + s.body
+                out.append(s)
+            return out
+        self.fn.body = rewrite(self.fn.body)
+
+    def none_test9(self, test, env) -> Optional[str]:
+        """"is" / "isnot" when `test` is `x is None` / `x is not None`, x a variable of an option type that is not narrowed."""
+        if isinstance(test, ast.Compare) and len(test.ops) == 1 and isinstance(test.ops[0], (ast.Is, ast.IsNot)) \
+                and isinstance(test.left, ast.Name) and isinstance(test.comparators[0], ast.Constant) \
+                and test.comparators[0].value is None and test.left.id in env and test.left.id + "!" not in env \
+                and is_option(self.spec.types.get(test.left.id, "")):
+            return "is" if isinstance(test.ops[0], ast.Is) else "isnot"
+        return None
+
+    def value_type9(self, t: str) -> bool:
+        """A type all of whose values are immutable or lists (of lists ..) of immutable values: a deep copy is an equal value."""
+        return all(tok in ("list", "option", "N", "Z", "bool") for tok in t.replace("(", " ").replace(")", " ").split())
+
+    def local_call9(self, e) -> Optional[str]:
+        """The name f when `e` is `f(..)`, f a local function of the unit (translated before) or the local function itself."""
+        if isinstance(e, ast.Call) and isinstance(e.func, ast.Name) and e.func.id not in self.spec.types \
+                and e.func.id in self.unit.local_owner9:
+            return e.func.id
+        return None
+
+    def fresh9(self, e) -> bool:
+        """`a + b` on lists, `xs[k:]`, `list(set(xs))` and the call of a local function declared `fresh` (checked: every value it
+        returns is a list display, a concatenation or such a call) build a new list."""
+        if isinstance(e, ast.BinOp) and isinstance(e.op, ast.Add):
+            return True
+        if isinstance(e, ast.Subscript) and isinstance(e.slice, ast.Slice):
+            return True
+        f = self.local_call9(e)
+        if f is not None:
+            spec = self.spec if f == self.fn.name and self.cls is None else self.unit.functions.get(f)
+            return spec is not None and spec.fresh and is_list(spec.ret)
+        return False
+
+    def ntype9(self, e, env) -> Optional[str]:
+        if isinstance(e, ast.Call) and isinstance(e.func, ast.Name) and e.func.id in self.unit.buildtrees9 \
+                and e.func.id not in self.spec.types:
+            return e.func.id
+        if self.len_call9(e, env) is not None:
+            return self.len_call9(e, env)[2].ret
+        if self.all_in9(e, env) is not None:
+            return "bool"
+        if isinstance(e, ast.Name) and e.id == "self" and getattr(e, "as_object9", False) and self.cls is not None:
+            return self.cls.name
+        if isinstance(e, ast.BinOp) and isinstance(e.op, ast.Add):
+            try:
+                lt, rt = self.ntype(e.left, env), self.ntype(e.right, env)
+            except TranslatorAbort:
+                return None
+            if lt == rt and is_list(lt):
+                return lt
+        if isinstance(e, ast.Subscript) and isinstance(e.slice, ast.Slice) and isinstance(e.value, ast.Name) \
+                and e.value.id in env and is_list(self.spec.types.get(e.value.id, "")):
+            return self.spec.types[e.value.id]
+        if isinstance(e, ast.Call) and getattr(e, "list_set9", False):
+            return self.spec.types[e.args[0].id]
+        if isinstance(e, ast.List) and len(e.elts) == 1 and isinstance(e.elts[0], ast.Name) and e.elts[0].id in env \
+                and self.kind(self.spec.types.get(e.elts[0].id, ""))[0] == "class":
+            return "list " + self.spec.types[e.elts[0].id]
+        if isinstance(e, ast.List) and len(e.elts) == 1 and isinstance(e.elts[0], ast.Name) and e.elts[0].id in env \
+                and self.spec.types.get(e.elts[0].id) in self.unit.buildtrees9:
+            return "list " + self.spec.types[e.elts[0].id]
+        if isinstance(e, ast.List) and len(e.elts) == 1 and isinstance(e.elts[0], ast.Call) and isinstance(e.elts[0].func, ast.Name) \
+                and e.elts[0].func.id in self.unit.buildtrees9 and e.elts[0].func.id not in self.spec.types:
+            return "list " + e.elts[0].func.id
+        if isinstance(e, ast.Call) and isinstance(e.func, ast.Attribute) and e.func.attr == "copy" and not e.args and not e.keywords \
+                and isinstance(e.func.value, ast.Name) and e.func.value.id in env \
+                and self.vtype(e, e.func.value.id, env) in self.unit.buildtrees9:
+            return self.vtype(e, e.func.value.id, env)
+        f = self.local_call9(e)
+        if f is not None and not e.keywords:
+            return self.spec.ret if (f == self.fn.name and self.cls is None) else self.unit.functions[f].ret
+        return None
+
+    def len_call9(self, e, env):
+        """(x, class, method) when `e` is `len(x)`, x a local variable holding an object whose class translates `__len__`."""
+        if isinstance(e, ast.Call) and isinstance(e.func, ast.Name) and e.func.id == "len" and "len" not in self.spec.types \
+                and len(e.args) == 1 and not e.keywords and isinstance(e.args[0], ast.Name) and e.args[0].id in env \
+                and self.kind(self.spec.types.get(e.args[0].id, ""))[0] == "class":
+            x = e.args[0].id
+            k, name, sfx = self.kind(self.spec.types[x])
+            m = next((m for m in self.unit.done_methods.get(name, []) if m.name == "__len__"), None)
+            if m is None or sfx or x in self.params or x in self.fieldvars or self.unit.rebinds("len"):
+                self.abort(e, f"len({x}): __len__ of {name} is not translated / {x} is not a local variable")
+            return x, self.unit.classes[name], m
+        return None
+
+    def all_in9(self, e, env):
+        """(t, ys, component types) when `e` is `all(v in ys for v in t)`, t a variable of a declared fixed-length tuple type all
+        of whose components have the item type of the list variable ys."""
+        if not (isinstance(e, ast.Call) and isinstance(e.func, ast.Name) and e.func.id == "all" and "all" not in self.spec.types
+                and len(e.args) == 1 and not e.keywords and isinstance(e.args[0], ast.GeneratorExp)):
+            return None
+        g = e.args[0]
+        c = g.generators[0]
+        if len(g.generators) != 1 or c.is_async or c.ifs or not isinstance(c.target, ast.Name) or not isinstance(c.iter, ast.Name) \
+                or self.spec.types.get(c.iter.id) not in self.unit.tuples9:
+            return None
+        t, v, el = c.iter.id, c.target.id, g.elt
+        if not (isinstance(el, ast.Compare) and len(el.ops) == 1 and isinstance(el.ops[0], ast.In) and isinstance(el.left, ast.Name)
+                and el.left.id == v and isinstance(el.comparators[0], ast.Name)):
+            return None
+        ys = el.comparators[0].id
+        comps = self.unit.tuples9[self.spec.types[t]]
+        if t not in env and t != getattr(self, "comp_var9", None):
+            return None
+        if ys not in env or not is_list(self.spec.types.get(ys, "")) or any(cc != arg_of(self.spec.types[ys]) for cc in comps) \
+                or v in env or v in (t, ys) or self.unit.rebinds("all"):
+            self.abort(e, "all(v in ys for v in t) with components of t that are not of the item type of the list ys")
+        return t, ys, comps
+
+    def expr9b(self, e, want: str, env, hoist) -> Optional[str]:
+        if isinstance(e, ast.Call) and isinstance(e.func, ast.Name) and e.func.id in self.unit.buildtrees9 \
+                and e.func.id not in self.spec.types:
+            # Tree() / Tree(name=e): a new node without children
+            tn = e.func.id
+            if want not in (tn, "option " + tn) or e.args or [k.arg for k in e.keywords] not in ([], ["name"]):
+                self.abort(e, f"{tn}(..) other than {tn}() / {tn}(name=e), or where a value of type {want} is expected")
+            name = f"(Some {self.expr(e.keywords[0].value, self.unit.buildtrees9[tn], env, hoist)})" if e.keywords else "None"
+            term = f"({tn}_node {name} nil)"
+            return f"(Some {term})" if want != tn else term
+        lc = self.len_call9(e, env)
+        if lc is not None:
+            # len(x): x.__len__() -- the method returns the object with its result
+            x, cls, m = lc
+            if want != m.ret:
+                self.abort(e, f"len({x}) of type {m.ret} where a value of type {want} is expected")
+            self.nt += 1
+            hoist.append(("call", f"({x}, t'{self.nt})", self.mcall(e, cls, m, "", x, [])))
+            return f"t'{self.nt}"
+        ai = self.all_in9(e, env)
+        if ai is not None and want == "bool":
+            # all(v in ys for v in t): the components of t left to right, `v in ys` comparing the items of ys with v (`==`)
+            t, ys, comps = ai
+            et = arg_of(self.spec.types[ys])
+            k = self.kind(et)[0]
+            if et == "elem":
+                self.uses_eqb = True
+                eq = "eqb"
+            elif et in ("N", "Z"):
+                eq = et + ".eqb"
+            else:
+                self.abort(e, f"membership test on items of type {et}")
+            vs = [f"c'{i + 1}" for i in range(len(comps))]
+            tests = [f"(existsb (fun y' => {eq} y' {v}) {ys})" for v in vs]
+            term = tests[0]
+            for x in tests[1:]:
+                term = f"(andb {term} {x})"
+            return f"(let '({', '.join(vs)}) := {t} in {term})"
+        return None
+
+    def expr9(self, e, want: str, env, hoist) -> Optional[str]:
+        r = self.expr9b(e, want, env, hoist)
+        if r is not None:
+            return r
+        if isinstance(e, ast.Name) and e.id == "self" and getattr(e, "as_object9", False) and self.cls is not None:
+            # self handed to a local function (in the returned call: see `prepare9`): the object as it is then
+            if want != self.cls.name or any(v not in env for v in self.fieldvars):
+                self.abort(e, f"self where a value of type {want} is expected / before every attribute is assigned")
+            return self.state(e)
+        if isinstance(e, ast.BinOp) and isinstance(e.op, ast.Add) and is_list(want) and self.ntype9(e, env) == want:
+            # xs + ys on two lists of one type: a new list (left operand first)
+            a = self.expr(e.left, want, env, hoist)
+            return f"({a} ++ {self.expr(e.right, want, env, hoist)})"
+        if isinstance(e, ast.Subscript) and isinstance(e.slice, ast.Slice) and is_list(want) and self.ntype9(e, env) == want:
+            # xs[k:], k a non-negative int literal: a new list without the first k items (no error when xs is shorter)
+            sl = e.slice
+            if sl.upper is not None or sl.step is not None or not (isinstance(sl.lower, ast.Constant) and type(sl.lower.value) is int
+                                                                  and sl.lower.value >= 0):
+                self.abort(e, "slice other than xs[<non-negative int literal>:]")
+            return f"(skipn {sl.lower.value} {e.value.id})"
+        if isinstance(e, ast.Call) and getattr(e, "list_set9", False):
+            # list(set(xs)) (built by `prepare9`): the distinct items of xs in the order Python's set iteration gives --
+            # the declared Section variable applied to the list of the items inserted, in insertion order
+            lt = self.spec.types[e.args[0].id]
+            if lt != want or lt not in self.unit.list_set_order9 or e.args[0].id not in env:
+                self.abort(e, f"list(set(..)) of a {lt} where a {want} is expected / no order declared for it")
+            self.uses_vars.add(self.unit.list_set_order9[lt])
+            return f"({self.unit.list_set_order9[lt]} {e.args[0].id})"
+        if isinstance(e, ast.List) and len(e.elts) == 1 and is_list(want) and self.ntype9(e, env) == want:
+            # [x], x an object / a built tree (its value now) or a new node
+            return f"(cons {self.expr(e.elts[0], arg_of(want), env, hoist)} nil)"
+        if isinstance(e, ast.Call) and isinstance(e.func, ast.Attribute) and e.func.attr == "copy" and self.ntype9(e, env) == want \
+                and want in self.unit.buildtrees9:
+            return e.func.value.id                        # t.copy() (ete3: a deep copy) of a built tree: the same value
+        f = self.local_call9(e)
+        if f is not None and f == self.fn.name and self.cls is None:
+            # the local function calls itself: a Fixpoint on fuel; arguments left to right
+            if not self.spec.rec_fuel or e.keywords or len(e.args) != len(self.params) \
+                    or any(isinstance(a, ast.Starred) for a in e.args):
+                self.abort(e, f"recursive call of {f} without declared fuel / with the wrong number of arguments")
+            if want != self.spec.ret:
+                self.abort(e, f"{f}(..) where a value of type {want} is expected")
+            args = []
+            for a, q in zip(e.args, self.params):
+                qt = self.spec.types[q]
+                if self.kind(qt)[0] == "class":
+                    self.object_arg9(e, a, env)
+                elif is_list(qt) and not (self.is_fresh(a) or isinstance(a, ast.Name) or (
+                        isinstance(a, ast.Subscript) and isinstance(a.value, ast.Name) and not isinstance(a.slice, ast.Slice))):
+                    self.abort(e, "list argument that is neither newly built, a variable nor an item of a list variable")
+                args.append(self.expr(a, qt, env, hoist))
+            self.in_rec = True
+            self.nt += 1
+            hoist.append(("call", f"t'{self.nt}", " ".join([self.prefix + (self.spec.alias or self.fn.name) + "_rec fuel''"] + args)))
+            return f"t'{self.nt}"
+        if f is not None:
+            owner = self.unit.local_owner9[f]
+            if owner != (self.cls.name if self.cls is not None else None, self.fn.name) or f not in self.unit.functions:
+                self.abort(e, f"call of the local function {f} outside the method that defines it")
+            callee, params = self.unit.functions[f], self.unit.params[f]
+            if e.keywords or len(e.args) != len(params) or any(isinstance(a, ast.Starred) for a in e.args) or want != callee.ret:
+                self.abort(e, f"{f}() called with {len(e.args)} arguments / where a value of type {want} is expected")
+            args = []
+            for a, q in zip(e.args, params):
+                qt = callee.types[q]
+                if self.kind(qt)[0] == "class":
+                    if not (isinstance(a, ast.Name) and a.id == "self" and getattr(a, "as_object9", False)):
+                        self.object_arg9(e, a, env)
+                elif is_list(qt) and not (isinstance(a, ast.Name) and a.id in env and a.id not in self.fieldvars):
+                    self.abort(e, "list argument that is not a variable")     # (the callee cannot update its parameters)
+                args.append(self.expr(a, qt, env, hoist))
+            self.nt += 1
+            hoist.append(("call", f"t'{self.nt}", " ".join([self.prefix + (callee.alias or callee.name)] + args)))
+            return f"t'{self.nt}"
+        return None
+
+    def object_arg9(self, call, a, env):
+        """An object handed to a local function must be a local variable holding a copy (`deepcopy`) that no statement
+        textually after the call updates: the callee does not update its parameters (checked there) but may return the
+        object inside its result, which therefore shows the value the object has at the call."""
+        if not (isinstance(a, ast.Name) and a.id in env and a.id not in self.params and a.id not in self.fieldvars):
+            self.abort(call, "object argument that is not a local variable")
+        if any(isinstance(n, (ast.For, ast.While)) for n in ast.walk(self.fn)):
+            self.abort(call, "object handed to a local function inside a function with loops")
+        for n in ast.walk(self.fn):
+            if isinstance(n, ast.Call) and isinstance(n.func, ast.Attribute) and isinstance(n.func.value, ast.Name) \
+                    and n.func.value.id == a.id and (n.lineno, n.col_offset) > (call.lineno, call.col_offset):
+                self.abort(n, f"{a.id!r} is used as a receiver after it was handed to a local function")
+
+    def prepare9(self):
+        """(method) Drop the definitions of the local functions translated before this method; rewrite
+        `return f(p1=self, p2=list(set(self.m(i) for i in range(e))), ..)` (f such a local function) into the statements it
+        abbreviates: the generator is consumed at once by `set`, which inserts its items in order."""
+        fn, key = self.fn, (self.cls.name if self.cls is not None else None, self.fn.name)
+        local = self.unit.local_defs9.get(key, set())
+        if not local:
+            return
+        body = [b for b in fn.body if not (isinstance(b, ast.FunctionDef) and b.name in local)]
+        for b in body:
+            for n in ast.walk(b):
+                if isinstance(n, (ast.FunctionDef, ast.AsyncFunctionDef, ast.Lambda, ast.ClassDef)):
+                    self.abort(n, "definition inside a method other than its translated local functions")
+        out = []
+        for b in body:
+            call = b.value if isinstance(b, ast.Return) else None
+            if not (isinstance(call, ast.Call) and isinstance(call.func, ast.Name) and call.func.id in local and b in fn.body):
+                for n in ast.walk(b):
+                    if isinstance(n, ast.Name) and n.id in local:
+                        self.abort(n, f"use of the local function {n.id} other than `return {n.id}(..)` at the top level of the method")
+                out.append(b)
+                continue
+            params = self.unit.params[call.func.id]
+            args = list(call.args)
+            if any(isinstance(a, ast.Starred) for a in args) or any(k.arg is None for k in call.keywords) \
+                    or [k.arg for k in call.keywords] != params[len(args):]:
+                self.abort(call, "call of a local function whose keyword arguments are not exactly the remaining parameters in order")
+            args += [k.value for k in call.keywords]           # evaluated in this order
+            pre, seen_effect = [], False
+            for i, a in enumerate(args):
+                if isinstance(a, ast.Name) and a.id == "self":
+                    a.is_call_base = True                      # a reference to the object: read when the callee runs
+                    a.as_object9 = True
+                    continue
+                if isinstance(a, ast.Constant) and a.value is None:
+                    continue
+                if isinstance(a, ast.Name):
+                    continue                                   # a variable: reading it has no effect
+                g = a.args[0].args[0] if (isinstance(a, ast.Call) and isinstance(a.func, ast.Name) and a.func.id == "list"
+                                          and len(a.args) == 1 and not a.keywords and isinstance(a.args[0], ast.Call)
+                                          and isinstance(a.args[0].func, ast.Name) and a.args[0].func.id == "set"
+                                          and len(a.args[0].args) == 1 and not a.args[0].keywords) else None
+                if not isinstance(g, ast.GeneratorExp) or seen_effect or "list" in self.spec.types or "set" in self.spec.types \
+                        or self.unit.rebinds("list") or self.unit.rebinds("set"):
+                    self.abort(a, "argument of a local function other than self, None, or one list(set(<generator>))")
+                seen_effect = True
+                c = g.generators[0]
+                if len(g.generators) != 1 or c.is_async or c.ifs or not isinstance(c.target, ast.Name) \
+                        or not (isinstance(c.iter, ast.Call) and isinstance(c.iter.func, ast.Name) and c.iter.func.id == "range"
+                                and len(c.iter.args) == 1 and not c.iter.keywords) \
+                        or not (_is_self_call(g.elt) and not g.elt.keywords):
+                    self.abort(a, "generator other than `self.m(..) for i in range(e)`")
+                var = c.target.id
+                others = [n for s in fn.body for n in ast.walk(s) if isinstance(n, ast.Name) and n.id == var
+                          and not any(n is x for x in ast.walk(g))]
+                if others or var in self.params or any(isinstance(x, ast.Name) and x.id == var for x in ast.walk(c.iter)):
+                    self.abort(a, f"the generator variable {var!r} is also a variable of the method")
+                m = self.resolve(g.elt)
+                if m is None or not m.ret:
+                    self.abort(a, "generator item that is not the call of a translated method returning a value")
+                acc, item = "items9", "item9"
+                for v in (acc, item):
+                    if v in self.spec.types or v in _names(fn.body):
+                        self.abort(a, f"the name {v!r} is in use")
+                self.spec.types[acc] = "list " + m.ret
+                self.spec.types[item] = m.ret
+                loc = lambda node: ast.copy_location(node, a)
+                nm = lambda x, ctx=ast.Load: loc(ast.Name(id=x, ctx=ctx()))
+                pre.append(loc(ast.Assign(targets=[nm(acc, ast.Store)], value=loc(ast.List(elts=[], ctx=ast.Load())))))
+                loop_body = [loc(ast.Assign(targets=[nm(item, ast.Store)], value=g.elt)),
+                             loc(ast.Expr(value=loc(ast.Call(func=loc(ast.Attribute(value=nm(acc), attr="append", ctx=ast.Load())),
+                                                             args=[nm(item)], keywords=[]))))]
+                pre.append(loc(ast.For(target=nm(var, ast.Store), iter=c.iter, body=loop_body, orelse=[])))
+                marker = loc(ast.Call(func=nm("list"), args=[nm(acc)], keywords=[]))
+                marker.list_set9 = True
+                pre.append(loc(ast.Assign(targets=[nm(acc, ast.Store)], value=marker)))
+                args[i] = nm(acc)
+            call.args, call.keywords = args, []
+            out.extend(pre + [b])
+        fn.body = out
+
+    def block9b(self, s, rest, env, ctx, h) -> Optional[List[str]]:
+        if isinstance(s, (ast.Assign, ast.AnnAssign)) and self.unit.buildtrees9:
+            # a variable holding a tree under construction is only ever bound to an object nothing else names: a new node, a
+            # copy, None, or what a function of the unit returns (an object the callee built) -- `y = x` would give the tree a
+            # second name, and x.add_child(..) would then change y as well
+            tg = s.targets[0] if isinstance(s, ast.Assign) and len(s.targets) == 1 else getattr(s, "target", None)
+            if isinstance(tg, ast.Name):
+                tt = self.spec.types.get(tg.id, "")
+                bt = arg_of(tt) if is_option(tt) else tt
+                v = s.value
+                if bt in self.unit.buildtrees9 and not (
+                        isinstance(v, ast.Constant) and v.value is None and is_option(tt)
+                        or isinstance(v, ast.Call) and isinstance(v.func, ast.Name) and v.func.id not in self.spec.types
+                        and (v.func.id == bt or v.func.id in self.unit.functions or v.func.id == self.fn.name)
+                        or isinstance(v, ast.Call) and isinstance(v.func, ast.Attribute) and v.func.attr == "copy"):
+                    self.abort(s, f"{tg.id!r} holds a tree under construction: it may only be bound to a new node, a copy, None or "
+                                  "the result of a function of the unit (anything else could give one tree two names)")
+        if isinstance(s, ast.Assign) and getattr(s, "unpack9", False):
+            # a, b, _ = t (built by `rewrite9` from the target of a for): the components of a fixed-length tuple
+            t, tgt = s.value.id, s.targets[0]
+            comps = self.unit.tuples9[self.spec.types[t]]
+            names = [x.id if isinstance(x, ast.Name) else None for x in tgt.elts]
+            real = [n for n in names if n != "_"]
+            if len(names) != len(comps) or None in names or len(set(real)) != len(real) or t not in env:
+                self.abort(s, f"unpacking of a {self.spec.types[t]} into anything but {len(comps)} distinct variables (or _)")
+            for n, c in zip(names, comps):
+                if n != "_" and (self.ty(s, n) != c or n in self.params or n in self.fieldvars or n + "!" in env):
+                    self.abort(s, f"{n!r} must be a local variable declared {c}")
+            return [f"let '({', '.join(names)}) := {t} in"] + self.block(rest, env + [n for n in real if n not in env], ctx)
+        if isinstance(s, ast.Assign) and getattr(s, "mcall9", False):
+            # xs = x.m(..) (built by `rewrite9` from the sequence of a for): the object is bound again, xs is what m returns
+            c, v = s.value, s.targets[0].id
+            oc = self.obj_call(c, env)
+            if oc is None:
+                self.abort(s, "loop over the result of a call that is not a translated method of a local object")
+            x, cls, sfx, m = oc
+            if x not in env or x in self.params or x in self.fieldvars:
+                self.abort(s, f"{x}.{m.name}(..) on a parameter / an attribute")
+            args = self.method_args(c, cls, m, sfx, env, h)
+            call = self.mcall(s, cls, m, sfx, x, args)
+            return self.hoisted(h, [f"match {call} with", "| Err e' => " + ctx.fail("e'"), f"| Ok ({x}, {v}) =>"]
+                                + _ind(self.block(rest, env + [v], ctx)) + ["end"], ctx)
+        if isinstance(s, ast.Expr) and isinstance(s.value, ast.Call) and isinstance(s.value.func, ast.Attribute) \
+                and s.value.func.attr == "add_child" and isinstance(s.value.func.value, ast.Name) \
+                and self.spec.types.get(s.value.func.value.id) in self.unit.buildtrees9:
+            # x.add_child(y): y becomes the last child of x.  x is a local variable; y is a new node or a variable that is never
+            # itself given a child in this function (so that x keeps seeing the y it was given)
+            x, c = s.value.func.value.id, s.value
+            tn = self.spec.types[x]
+            if x not in env or x in self.params or x in self.fieldvars or x + "!" in env or c.keywords or len(c.args) != 1:
+                self.abort(s, "add_child on something that is not a local tree variable / with other arguments than the child")
+            self.no_escape9(s, x)
+            a = c.args[0]
+            if isinstance(a, ast.Name):
+                if a.id == x or a.id not in env or self.vtype(s, a.id, env) != tn:
+                    self.abort(s, f"the child {a.id!r} is not a (non-None) {tn} variable")
+                for n in ast.walk(self.fn):
+                    if isinstance(n, ast.Call) and isinstance(n.func, ast.Attribute) and n.func.attr == "add_child" \
+                            and isinstance(n.func.value, ast.Name) and n.func.value.id == a.id:
+                        self.abort(n, f"{a.id!r} is given to add_child and is itself given children in this function")
+                child = a.id
+            elif isinstance(a, ast.Call) and isinstance(a.func, ast.Name) and a.func.id == tn:
+                child = self.expr(a, tn, env, h)
+            elif isinstance(a, ast.Call) and isinstance(a.func, ast.Attribute) and a.func.attr == "copy" \
+                    and self.ntype9(a, env) == tn:
+                child = self.expr(a, tn, env, h)           # a copy: nothing else names it
+            else:
+                self.abort(s, "child that is neither a variable nor a new node")
+            return self.hoisted(h, [f"let {x} := ({tn}_add_child {x} {child}) in"] + self.block(rest, env, ctx), ctx)
+        if isinstance(s, ast.Assign) and len(s.targets) == 1 and isinstance(s.targets[0], ast.Name) \
+                and isinstance(s.value, ast.DictComp) and self.kind(self.spec.types.get(s.targets[0].id, ""))[0] == "elemdict":
+            # d = {k: i for i, k in enumerate(xs)}: one store per item of xs, in order
+            d, v = s.targets[0].id, s.value
+            g = v.generators[0]
+            ok = len(v.generators) == 1 and not g.is_async and not g.ifs and isinstance(g.target, ast.Tuple) \
+                and len(g.target.elts) == 2 and all(isinstance(x, ast.Name) for x in g.target.elts) \
+                and isinstance(g.iter, ast.Call) and isinstance(g.iter.func, ast.Name) and g.iter.func.id == "enumerate" \
+                and len(g.iter.args) == 1 and not g.iter.keywords and isinstance(g.iter.args[0], ast.Name) \
+                and isinstance(v.key, ast.Name) and isinstance(v.value, ast.Name)
+            if not ok or "enumerate" in self.spec.types or self.unit.rebinds("enumerate"):
+                self.abort(s, "dictionary comprehension other than {k: i for i, k in enumerate(xs)}")
+            i, k, xs = g.target.elts[0].id, g.target.elts[1].id, g.iter.args[0].id
+            if v.key.id != k or v.value.id != i or i == k or xs not in env or self.ntype(g.iter.args[0], env) != "list" \
+                    or self.unit.elemdicts[self.spec.types[d]] != "N" or d in self.params or d in self.fieldvars \
+                    or i in env or k in env or self.unit.outside:
+                self.abort(s, "dictionary comprehension other than {k: i for i, k in enumerate(xs)} into a local dictionary from "
+                              "elements to positions, xs a list of elements")
+            self.need("adict_set", "enum_dict9")
+            self.uses_eqb = True
+            return [f"let {d} := (enum_dict9 eqb (@nil (A * N)) 0%N {xs}) in"] + self.block(rest, env + [d] * (d not in env), ctx)
+        if isinstance(s, ast.Assign) and len(s.targets) == 1 and isinstance(s.targets[0], ast.Name) \
+                and isinstance(s.value, ast.ListComp) and isinstance(s.value.elt, ast.Subscript):
+            # ys = [xs[i] for i in g]: the items of xs at the positions g lists, IndexError at the first one out of range
+            y, v = s.targets[0].id, s.value
+            g = v.generators[0]
+            ok = len(v.generators) == 1 and not g.is_async and not g.ifs and isinstance(g.target, ast.Name) \
+                and isinstance(g.iter, ast.Name) and isinstance(v.elt.value, ast.Name) and isinstance(v.elt.slice, ast.Name) \
+                and v.elt.slice.id == g.target.id
+            if not ok:
+                self.abort(s, "list comprehension other than [xs[i] for i in g]")
+            xs, i, gv = v.elt.value.id, g.target.id, g.iter.id
+            yt = self.ty(s, y)
+            if xs not in env or gv not in env or i in env or i in (xs, gv, y) or self.spec.types.get(gv) != "list N" \
+                    or not is_list(yt) or self.spec.types.get(xs) != yt or y in self.params or y in self.fieldvars \
+                    or self.ty(s, i) != "N" or arg_of(yt) not in IMMUTABLE:
+                self.abort(s, "[xs[i] for i in g]: g must be a list of non-negative ints, xs a list of immutable values, the "
+                              "target a local list of the same type")
+            self.need("list_gets9")
+            return [f"match list_gets9 {xs} {gv} with", f"| None => {ctx.fail('IndexError')}", f"| Some {y} =>"] \
+                + _ind(self.block(rest, env + [y] * (y not in env), ctx)) + ["end"]
+        return None
+
+    def no_escape9(self, m, x: str):
+        """`x.add_child(..)` at statement `m` is translated as a rebinding of x, which is only right if nothing else holds
+        the object x names: abort if x was handed on (stored in a list, passed, returned, ..) earlier in the same life of
+        the variable -- textually between the last `x = <new node>` before `m` and `m`, or anywhere in a loop around `m`
+        whose body does not bind x to a new node before `m`."""
+        fn = self.fn
+        parents = {id(c): n for n in ast.walk(fn) for c in ast.iter_child_nodes(n)}
+
+        def receiver(n) -> bool:          # x in `x.add_child(..)` / `x.copy()`
+            par = parents.get(id(n))
+            return isinstance(par, ast.Attribute) and par.value is n and par.attr in ("add_child", "copy") \
+                and isinstance(parents.get(id(par)), ast.Call) and parents[id(par)].func is par
+        births = [n.lineno for n in ast.walk(fn) if isinstance(n, ast.Assign) and len(n.targets) == 1
+                  and isinstance(n.targets[0], ast.Name) and n.targets[0].id == x]
+        escapes = [n for n in ast.walk(fn) if isinstance(n, ast.Name) and n.id == x and isinstance(n.ctx, ast.Load)
+                   and not receiver(n)]
+        loops = []
+        p = parents.get(id(m))
+        while p is not None:
+            if isinstance(p, (ast.For, ast.While)):
+                loops.append(p)
+            p = parents.get(id(p))
+        for e in escapes:
+            if e.lineno < m.lineno and not any(e.lineno < b <= m.lineno for b in births):
+                self.abort(e, f"{x!r} is handed on here and given a child later (line {m.lineno}): the holder would see the change")
+            for lp in loops:
+                inside = any(e is n for n in ast.walk(lp))
+                first = lp.body[0].lineno if lp.body else lp.lineno
+                if inside and not any(first <= b <= m.lineno for b in births):
+                    self.abort(e, f"{x!r} is handed on inside a loop that gives it a child (line {m.lineno}) without binding it "
+                                  "to a new node first")
+
+    def block9c(self, s, rest, env, ctx, h) -> Optional[List[str]]:
+        if isinstance(s, ast.Assign) and getattr(s, "objitem9", False):
+            x, y = s.targets[0].id, s.value.id       # (built by `rewrite9`) the object the loop is at, as a local of the body
+            if x in self.params or x in self.fieldvars or y not in env or self.ty(s, x) != self.ty(s, y):
+                self.abort(s, f"loop variable {x!r} holding an object is a parameter / an attribute")
+            return [f"let {x} := {y} in"] + self.block(rest, env + [x] * (x not in env), ctx)
+        if isinstance(s, ast.If) and isinstance(s.test, ast.Compare) and len(s.test.ops) == 1 and isinstance(s.test.ops[0], ast.Is) \
+                and isinstance(s.test.comparators[0], ast.Constant) and s.test.comparators[0].value is None \
+                and isinstance(s.test.left, ast.Call) and isinstance(s.test.left.func, ast.Name) \
+                and s.test.left.func.id in self.unit.functions and s.test.left.func.id not in self.spec.types \
+                and is_option(self.unit.functions[s.test.left.func.id].ret):
+            # if f(..) is None: <ends in return / raise>, f a function of the unit: the call, then a match on its result
+            if s.orelse or not s.body or not isinstance(s.body[-1], (ast.Return, ast.Raise)):
+                self.abort(s, "`if f(..) is None:` whose body does not end in return / raise, or with an else")
+            t = self.expr(s.test.left, self.unit.functions[s.test.left.func.id].ret, env, h)
+            return self.hoisted(h, [f"match {t} with", "| None =>"] + _ind(self.block(s.body, env, ctx)) + ["| Some _ =>"]
+                                + _ind(self.block(rest, env, ctx)) + ["end"], ctx)
+        if isinstance(s, ast.Assign) and len(s.targets) == 1 and isinstance(s.targets[0], ast.Name) \
+                and isinstance(s.value, ast.Call) and isinstance(s.value.func, ast.Attribute) \
+                and isinstance(s.value.func.value, ast.Name) and s.value.func.value.id != "self" \
+                and s.value.func.value.id in env and self.kind(self.spec.types.get(s.value.func.value.id, ""))[0] == "class" \
+                and is_list(self.spec.types.get(s.targets[0].id, "")):
+            # ys = x.m(..), x a local object (or the object a loop iterates) that is not mentioned again in this block, m a
+            # translated method that is not `pure` and returns a list: the object is bound again, ys is the list
+            oc = self.obj_call(s.value, env)
+            x, cls, sfx, m = oc
+            y = s.targets[0].id
+            if m.pure or m.ret != self.ty(s, y) or x in self.params or x in self.fieldvars or y in self.params \
+                    or y in self.fieldvars or x in _names(rest):
+                return None
+            args = self.method_args(s.value, cls, m, sfx, env, h)
+            call = self.mcall(s, cls, m, sfx, x, args)
+            return self.hoisted(h, [f"match {call} with", "| Err e' => " + ctx.fail("e'"), f"| Ok ({x}, {y}) =>"]
+                                + _ind(self.block(rest, env + [y] * (y not in env), ctx)) + ["end"], ctx)
+        if isinstance(s, ast.Assign) and len(s.targets) == 1 and isinstance(s.targets[0], ast.Name) \
+                and isinstance(s.value, ast.ListComp) and isinstance(s.value.elt, ast.ListComp):
+            y, v = s.targets[0].id, s.value
+            yt = self.ty(s, y)
+            g = v.generators[0]
+            if len(v.generators) != 1 or g.is_async or g.ifs or not isinstance(g.target, ast.Name) or not isinstance(g.iter, ast.Name) \
+                    or g.iter.id not in env or y in self.params or y in self.fieldvars or g.target.id in env:
+                self.abort(s, "nested list comprehension outside the handled subset")
+            inner, ov, oseq = v.elt, g.target.id, g.iter.id
+            ig = inner.generators[0]
+            if isinstance(inner.elt, ast.Subscript) and len(inner.generators) == 1 and not ig.ifs and not ig.is_async \
+                    and isinstance(ig.target, ast.Name) and isinstance(ig.iter, ast.Name) and ig.iter.id == ov \
+                    and isinstance(inner.elt.value, ast.Name) and isinstance(inner.elt.slice, ast.Name) \
+                    and inner.elt.slice.id == ig.target.id:
+                # ys = [[xs[i] for i in g] for g in gs]
+                xs, i = inner.elt.value.id, ig.target.id
+                if xs not in env or self.spec.types.get(oseq) != "list (list N)" or self.ty(s, ov) != "list N" or self.ty(s, i) != "N" \
+                        or i in env or len({xs, i, ov, oseq, y}) != 5 or not is_list(self.spec.types.get(xs, "")) \
+                        or yt != norm_type("list (" + self.spec.types[xs] + ")", self.unit.extra_names()) \
+                        or arg_of(self.spec.types[xs]) not in IMMUTABLE:
+                    self.abort(s, "[[xs[i] for i in g] for g in gs]: gs must be a list of lists of non-negative ints, xs a list of "
+                                  "immutable values, the target a local list of such lists")
+                self.need("list_gets9", "list_gets_all9")
+                return [f"match list_gets_all9 {xs} {oseq} with", f"| None => {ctx.fail('IndexError')}", f"| Some {y} =>"] \
+                    + _ind(self.block(rest, env + [y] * (y not in env), ctx)) + ["end"]
+            if self.comp_kind(inner) is not None and self.comp_kind(inner)[0] == "filter":
+                # ys = [[t for t in ts if c] for gl in gls]: c cannot raise and may mention gl
+                if not is_list(self.spec.types.get(oseq, "")) or self.ty(s, ov) != arg_of(self.spec.types[oseq]) \
+                        or not is_list(yt) or not is_list(arg_of(yt)):
+                    self.abort(s, "nested filtering comprehension with undeclared / ill-typed variables")
+                sub: list = []
+                self.comp_var9 = None
+                term = self.expr(inner, arg_of(yt), env + [ov], sub)
+                if sub:
+                    self.abort(s, "nested comprehension whose inner part can raise")
+                return [f"let {y} := (map (fun {self.binder(s, ov)} => {term}) {oseq}) in"] \
+                    + self.block(rest, env + [y] * (y not in env), ctx)
+            self.abort(s, "nested list comprehension outside the handled subset")
+        return None
+
+    def block9(self, s, rest, env, ctx, h) -> Optional[List[str]]:
+        r = self.block9b(s, rest, env, ctx, h)
+        if r is not None:
+            return r
+        r = self.block9c(s, rest, env, ctx, h)
+        if r is not None:
+            return r
+        if isinstance(s, ast.FunctionDef):
+            self.abort(s, "local function definition that the driver did not declare")
+        if isinstance(s, ast.Assign) and len(s.targets) == 1 and isinstance(s.targets[0], ast.Name) \
+                and isinstance(s.value, ast.Call) and isinstance(s.value.func, ast.Name) and s.value.func.id == "deepcopy" \
+                and "deepcopy" not in self.spec.types:
+            # x = deepcopy(y), y an object all of whose attributes hold ints / lists of ints: an object with equal attributes
+            # that shares nothing with y -- the value of y
+            self.unit.imported("deepcopy", "copy")
+            x, c = s.targets[0].id, s.value
+            if c.keywords or len(c.args) != 1 or not isinstance(c.args[0], ast.Name) or c.args[0].id not in env:
+                self.abort(s, "deepcopy of something that is not a variable")
+            y = c.args[0].id
+            k, name, _ = self.kind(self.ty(s, x))
+            if k != "class" or self.vtype(s, y, env) != self.spec.types[x] or x in self.params or x in self.fieldvars or x == y:
+                self.abort(s, "x = deepcopy(y) is translated for a local x and a variable y of one translated class")
+            cls = self.unit.classes[name]
+            if cls.views or cls.frozen or not all(self.value_type9(t) for t in cls.fields.values()):
+                self.abort(s, f"deepcopy of a {name}: an attribute could hold something whose copy is not the same value")
+            cdef = self.unit._unique(self.unit.tree.body, name, ast.ClassDef)
+            for b in cdef.body:
+                if isinstance(b, ast.FunctionDef) and b.name in ("__deepcopy__", "__copy__", "__reduce__", "__reduce_ex__",
+                                                                   "__getstate__", "__setstate__", "__new__", "__getnewargs__",
+                                                                   "__getnewargs_ex__"):
+                    self.abort(b, f"{name} defines {b.name!r}, which changes what deepcopy does")
+            return [f"let {x} := {y} in"] + self.block(rest, env + [x] * (x not in env), ctx)
+        if isinstance(s, ast.If):
+            t = s.test
+            dup = lambda stmts: [copy.deepcopy(x) for x in stmts]
+            mk = lambda test, body, orelse: ast.copy_location(ast.If(test=test, body=body, orelse=orelse), s)
+            if self.none_test9(t, env) == "is" and not s.orelse and s.body and isinstance(s.body[-1], (ast.Return, ast.Raise)) \
+                    and t.left.id not in self.params and t.left.id not in self.fieldvars \
+                    and t.left.id not in self.assigned(s.body + rest):
+                return None                          # block6: a match; x is the value in what follows
+            if self.none_test9(t, env) == "is":
+                # if x is None: A else: B  ==  if x is not None: B else: A
+                neg = ast.copy_location(ast.Compare(left=t.left, ops=[ast.IsNot()], comparators=t.comparators), t)
+                return self.block([mk(neg, s.orelse or [ast.copy_location(ast.Pass(), s)], s.body)] + rest, env, ctx)
+            if isinstance(t, ast.BoolOp) and len(t.values) >= 2 and self.none_test9(t.values[0], env) is not None:
+                # if x is None or c: A else: B  ==  if x is None: A else: (if c: A else: B); c is evaluated only when x is
+                # not None, as Python's `or` does -- and dually for `x is not None and c`
+                if any(isinstance(n, (ast.For, ast.While, ast.FunctionDef)) for b in s.body + s.orelse for n in ast.walk(b)):
+                    self.abort(s, "test on None combined with and/or around a loop")
+                others = t.values[1] if len(t.values) == 2 else ast.copy_location(ast.BoolOp(op=t.op, values=t.values[1:]), t)
+                kind = self.none_test9(t.values[0], env)
+                if isinstance(t.op, ast.Or) and kind == "is":
+                    return self.block([mk(t.values[0], s.body, [mk(others, dup(s.body), s.orelse)])] + rest, env, ctx)
+                if isinstance(t.op, ast.And) and kind == "isnot":
+                    return self.block([mk(t.values[0], [mk(others, s.body, dup(s.orelse))], s.orelse)] + rest, env, ctx)
+                self.abort(s, "test on None combined with and/or other than `x is None or c` / `x is not None and c`")
+        return None
+
     def block6(self, s, rest, env, ctx, h) -> Optional[List[str]]:
         """The statement forms of the sixth extension (None: `s` is not one of them)."""
         ct = self.celltype()
@@ -4099,6 +4875,10 @@ class _Fun:
         self.mark_calls(s)
         if isinstance(s, (ast.Return, ast.Break)) and rest:
             self.abort(rest[0], "statement after return/break")
+        if self.unit is not None and self.unit.ninth:
+            r = self.block9(s, rest, env, ctx, h)
+            if r is not None:
+                return r
         if self.unit is not None and self.unit.eighth:
             r = self.block8(s, rest, env, ctx, h)
             if r is not None:
@@ -4402,6 +5182,13 @@ class _Fun:
             if not isinstance(s.target, ast.Name) or type(s.op) not in BINOPS:
                 self.abort(s, "augmented assignment outside the handled subset")
             x = s.target.id
+            xt = self.vtype(s, x, env)
+            if not (xt in ("N", "Z", "bool") or (self.unit is not None and xt in self.unit.arith)):
+                # x op= e on a set / list / dict / object updates the object IN PLACE: every other name of that object sees the
+                # change, which a translation of containers as values (a rebinding `let x := x op e`) cannot show
+                self.abort(s, f"augmented assignment to {x!r} of type {xt}: only translated for ints, booleans and declared "
+                              "number types (on a set, list, dictionary or object it updates the object in place, for every "
+                              "name the object has; containers are translated as values, so the aliasing would be invisible)")
             load = ast.copy_location(ast.Name(id=x, ctx=ast.Load()), s)
             term = self.expr(ast.copy_location(ast.BinOp(left=load, op=s.op, right=s.value), s), self.ty(s, x), env, h)
             return self.hoisted(h, [f"let {x} := {term} in"] + self.block(rest, env, ctx), ctx)
@@ -4989,8 +5776,12 @@ class _Fun:
         if len(set(self.params)) != len(self.params):
             self.abort(fn, "duplicate parameter")
         self.RR = self.R
+        if self.unit is not None and self.unit.ninth:
+            self.rewrite9()
         if self.cls is not None:
             return self.translate_method()
+        if self.unit is not None and self.unit.ninth:
+            self.prepare9()
         binders = " ".join(self.binder(fn, p) for p in self.params)
         ctx = _Ctx(ret=lambda e: f"Ok {e}", fail=lambda e: f"Err {e}", fall=None)
         self.scan_cursors()
@@ -5051,6 +5842,8 @@ class _Fun:
         init = fn.name == "__init__"
         if init != (not self.spec.ret):
             self.abort(fn, "exactly __init__ returns nothing")
+        if self.unit.ninth:
+            self.prepare9()
         fn.body = [_SelfRewriter(self, cls).visit(s) for s in fn.body]
         for n in ast.walk(fn):
             if isinstance(n, ast.Name) and n.id == "self" and not getattr(n, "is_call_base", False):
@@ -5241,6 +6034,12 @@ class Unit:
         # fifth extension (all empty / False for the units that do not call `use_containers`)
         self.seventh = False                   # seventh extension (see `use_seventh`)
         self.eighth = False                    # eighth extension (see `use_eighth`)
+        self.ninth = False                     # ninth extension (see `use_ninth`)
+        self.list_set_order9: Dict[str, str] = {}   # (ninth extension) list type -> Section variable: the order of `list(set(xs))`
+        self.local_defs9: Dict[tuple, set] = {}     # (ninth extension) (class, method) -> its local functions translated before it
+        self.local_owner9: Dict[str, tuple] = {}    # (ninth extension) local function -> (class, method) that defines it
+        self.buildtrees9: Dict[str, str] = {}       # (ninth extension) tree under construction (ete3 `Tree`) -> type of its names
+        self.tuples9: Dict[str, list] = {}          # (ninth extension) fixed-length tuple type -> the types of its components
         self.sets8: Dict[str, tuple] = {}      # (eighth extension) set type -> (element type, Coq equality, order parameter)
         self.ddicts8: Dict[str, tuple] = {}    # (eighth extension) defaultdict(set) type -> (key type, set type)
         self.items8: Dict[str, tuple] = {}     # (eighth extension) mapping type -> (Coq function giving its items, item type)
@@ -5284,6 +6083,64 @@ class Unit:
         self.method_defaults: Dict[object, dict] = {}   # (class, method key) -> {parameter: Coq term of its (enum member) default}
         self.data_defaults: Dict[str, dict] = {}        # dataclass -> {field: Coq term of its default (None)}
         self.coercions: Dict[tuple, str] = {}  # (type of the value, expected type) -> format of the conversion (`{}`: the value)
+        self.check_module()
+
+    # ------------------------------------------------------------ the module as a whole
+    def check_module(self):
+        """Abort unless every module-level statement is an import, a def, a class, the docstring, a simple constant
+        assignment `NAME = <expression built from names, constants, subscripts, TypeVar / NewType calls>` or
+        `if TYPE_CHECKING: <imports>` -- anything else could run code that changes what the translated names mean (a
+        monkey-patch such as `mod.Class.method = ..`, a call with effects) -- and unless no module-level def, class or
+        assignment binds the name of a built-in the translation gives a fixed meaning to."""
+        def const(e) -> bool:
+            if isinstance(e, ast.Call):
+                return isinstance(e.func, ast.Name) and e.func.id in ("TypeVar", "NewType") \
+                    and all(const(a) for a in e.args) and all(k.arg is not None and const(k.value) for k in e.keywords)
+            if isinstance(e, (ast.Constant, ast.Name)):
+                return True
+            if isinstance(e, ast.Attribute):
+                return const(e.value)
+            if isinstance(e, ast.Subscript):
+                return const(e.value) and const(e.slice)
+            if isinstance(e, (ast.Tuple, ast.List)):
+                return all(const(x) for x in e.elts)
+            if isinstance(e, ast.UnaryOp) and isinstance(e.op, (ast.USub, ast.UAdd)):
+                return isinstance(e.operand, ast.Constant)
+            if isinstance(e, ast.BinOp) and isinstance(e.op, ast.BitOr):
+                return const(e.left) and const(e.right)
+            return False
+
+        builtin = {"len", "set", "sorted", "min", "max", "sum", "zip", "range", "list", "tuple", "dict", "any", "all",
+                   "enumerate", "reversed", "iter", "next", "isinstance"}
+        for i, n in enumerate(self.tree.body):
+            if isinstance(n, (ast.Import, ast.ImportFrom)):
+                for a in n.names:
+                    if (a.asname or a.name).split(".")[0] in builtin:
+                        self.abort(n, f"the import binds the built-in name {(a.asname or a.name)!r}")
+                continue
+            if isinstance(n, (ast.FunctionDef, ast.AsyncFunctionDef, ast.ClassDef)):
+                if n.name in builtin:
+                    self.abort(n, f"module-level definition of the built-in name {n.name!r}")
+                continue
+            if isinstance(n, ast.Expr) and isinstance(n.value, ast.Constant) and isinstance(n.value.value, str):
+                continue                          # the docstring / a string statement: no effect
+            if isinstance(n, ast.Assign) and all(isinstance(t, ast.Name) for t in n.targets) and const(n.value):
+                if any(t.id in builtin for t in n.targets):
+                    self.abort(n, "module-level assignment to a built-in name")
+                continue
+            if isinstance(n, ast.AnnAssign) and isinstance(n.target, ast.Name) and (n.value is None or const(n.value)):
+                if n.target.id in builtin:
+                    self.abort(n, "module-level assignment to a built-in name")
+                continue
+            if isinstance(n, ast.If) and (isinstance(n.test, ast.Name) and n.test.id == "TYPE_CHECKING"
+                                          or isinstance(n.test, ast.Attribute) and n.test.attr == "TYPE_CHECKING"
+                                          and isinstance(n.test.value, ast.Name)) \
+                    and all(isinstance(b, (ast.Import, ast.ImportFrom)) for b in n.body + n.orelse) \
+                    and not any((a.asname or a.name).split(".")[0] in builtin for b in n.body + n.orelse for a in b.names):
+                continue
+            self.abort(n, "module-level statement other than an import, a def, a class, a docstring, a simple constant "
+                          "assignment or `if TYPE_CHECKING:` imports (it could change what the translated names mean, e.g. by "
+                          "assigning an attribute of an imported module or class)")
 
     # ------------------------------------------------------------ declared types
     def parametric(self) -> set:
@@ -5623,6 +6480,102 @@ class Unit:
         if not (self.tables and self.seventh):
             self.abort(self.tree, "use_eighth needs use_tables and use_seventh")
         self.eighth = True
+
+    def use_ninth(self, list_set_order: Dict[str, str] = None):
+        """Switch on the ninth extension (see the module docstring); needs `use_containers`, `use_tables`, `use_seventh` and an
+        `extended` unit.  `list_set_order`: list type -> the Section variable (a function on that list type) that gives the
+        order of `list(set(xs))`."""
+        if not (self.tables and self.seventh and self.containers and self.extended):
+            self.abort(self.tree, "use_ninth needs an extended unit with use_containers, use_tables and use_seventh")
+        self.ninth = True
+        self.list_set_order9 = {norm_type(k, self.extra_names()): v for k, v in (list_set_order or {}).items()}
+        self.taken.update(self.list_set_order9.values())
+
+    def buildtree9(self, name: str, module: str, label: str) -> str:
+        """(ninth extension) `name` (imported from `module`: ete3's `Tree`) as the type of trees the translated code BUILDS:
+        `name()` / `name(name=e)` is a new node without children (named e; `None`: no name given, ete3 then stores its default
+        name), `x.add_child(y)` appends y to the children of x.  Only the names and the children (downwards) are kept: the
+        translated code reads nothing else.  Returns the Coq definitions (to place inside the Section)."""
+        if not self.ninth:
+            self.abort(self.tree, "buildtree9 needs use_ninth")
+        self.imported(name, module)
+        self.opaque(name, name)
+        self.buildtrees9[name] = norm_type(label, self.extra_names())
+        self.taken.update({name, name + "_node", name + "_add_child", name + "_name", name + "_children"})
+        lt = coq_type(self.buildtrees9[name], self.coq_base())
+        return "\n".join([
+            f"(* a tree built with {name}(..) and add_child: a node is its name (None: none given) and its children, in order *)",
+            f"Inductive {name} : Type := {name}_node (name' : option {lt}) (children' : list {name}).",
+            f"Definition {name}_add_child (t c : {name}) : {name} :=",
+            f"  match t with {name}_node n cs => {name}_node n (cs ++ cons c nil) end."])
+
+    def tuple9(self, name: str, comps: List[str]):
+        """(ninth extension) `name`: a Python tuple with exactly these component types (immutable values): the Coq product."""
+        if not self.ninth or len(comps) < 2:
+            self.abort(self.tree, "tuple9 needs use_ninth and at least two components")
+        comps = [norm_type(c, self.extra_names()) for c in comps]
+        if any(c not in IMMUTABLE for c in comps):
+            self.abort(self.tree, f"tuple type {name}: a component type is not immutable")
+        self.tuples9[name] = comps
+        self.opaque(name, "(" + " * ".join(coq_type(c, self.coq_base()) for c in comps) + ")%type")
+
+    def local_function(self, cname: str, mname: str, spec: FunSpec) -> str:
+        """(ninth extension) A function defined by a `def` statement at the top level of the body of the method `mname` of the
+        translated class `cname`, translated -- before that method -- as a function of the unit.  Checked: it is defined once
+        in the method and never rebound, its name is used nowhere else in the module, it is not decorated, and it mentions no
+        variable of the method (every name in it is one of its own parameters / declared locals, itself, or a name the
+        translation of its body resolves at module level), so that where it is defined does not matter."""
+        if not self.ninth or (cname is not None and cname not in self.classes):
+            self.abort(self.tree, f"local function of {cname}.{mname}: the class is not translated yet / use_ninth was not called")
+        if cname is None:                      # a function defined in a module-level function
+            meth = self._unique(self.tree.body, mname, ast.FunctionDef)
+        else:
+            cls = self._unique(self.tree.body, cname, ast.ClassDef)
+            meth = self._unique(cls.body, mname, ast.FunctionDef)
+        defs = [n for n in ast.walk(self.tree) if isinstance(n, (ast.FunctionDef, ast.AsyncFunctionDef, ast.ClassDef))
+                and n.name == spec.name]
+        stores = [n for n in ast.walk(self.tree) if isinstance(n, ast.Name) and n.id == spec.name and not isinstance(n.ctx, ast.Load)]
+        if len(defs) != 1 or defs[0] not in meth.body or not isinstance(defs[0], ast.FunctionDef) or stores \
+                or any(isinstance(n, (ast.Global, ast.Nonlocal)) for n in ast.walk(meth)) \
+                or any(isinstance(n, ast.arg) and n.arg == spec.name for n in ast.walk(self.tree)) \
+                or spec.name in self.functions or spec.name in self.taken or spec.name in RESERVED:
+            self.abort(meth, f"{spec.name!r} is not defined exactly once, by a def at the top level of {cname}.{mname}, and never rebound")
+        fn = defs[0]
+        uses = [n for n in ast.walk(self.tree) if isinstance(n, ast.Name) and n.id == spec.name
+                and not any(n is x for x in ast.walk(meth))]
+        if uses or any(isinstance(n, ast.Attribute) and n.attr == spec.name for n in ast.walk(self.tree)):
+            self.abort(fn, f"{spec.name!r} is mentioned outside {cname}.{mname}")
+        outer = {a.arg for a in ast.walk(meth.args) if isinstance(a, ast.arg)} | {
+            n.id for b in meth.body if b is not fn for n in ast.walk(b) if isinstance(n, ast.Name) and not isinstance(n.ctx, ast.Load)}
+        for n in ast.walk(fn):
+            if isinstance(n, ast.Name) and n.id in outer and n.id not in spec.types:
+                self.abort(n, f"the local function {spec.name} mentions {n.id!r}, a variable of the method that defines it")
+            if isinstance(n, (ast.FunctionDef, ast.AsyncFunctionDef, ast.Lambda, ast.ClassDef)) and n is not fn:
+                self.abort(n, "definition nested in a local function")
+        own = {a.arg for a in fn.args.args}
+        for n in ast.walk(fn):
+            if isinstance(n, ast.Name) and not isinstance(n.ctx, ast.Load) and n.id not in spec.types and n.id != "_":
+                self.abort(n, f"no declared type for variable {n.id!r}")
+        spec = self._norm(fn, spec)
+        self.local_owner9[spec.name] = (cname, mname)
+        fn2 = copy.deepcopy(fn)
+        for a in fn2.args.args:
+            a.annotation = None
+        fun = _Fun(self.path, fn2, spec, self.prefix, unit=self)
+        text = fun.translate()
+        if spec.fresh:
+            for n in ast.walk(fn2):
+                if isinstance(n, ast.Return) and isinstance(n.value, ast.Name) and is_list(spec.types.get(n.value.id, "")) \
+                        and n.value.id not in fun.params:
+                    continue                   # a local list (only ever bound to newly built lists) that nothing else names
+                if isinstance(n, ast.Return) and not (n.value is not None and fun.is_fresh(n.value)):
+                    self.abort(n, f"{spec.name} is declared to return a newly built list, but this value is not one")
+        self.method_uses_vars[spec.name] = set(fun.uses_vars)
+        self.method_uses_eqb[spec.name] = fun.uses_eqb
+        self.functions[spec.name] = spec
+        self.params[spec.name] = [x.arg for x in fn.args.args]
+        self.local_defs9.setdefault((cname, mname), set()).add(spec.name)
+        return text.replace(f"(* {fn.name}, line", f"(* {fn.name} (local function of {(cname + '.') if cname else ''}{mname}), line", 1)
 
     def use_seventh(self):
         """Switch on the seventh extension (used by `translator/spfs_gen.py`)."""
